@@ -21,7 +21,8 @@ for name in sys.argv[1:]:
             t0=time.time()
             env=dict(os.environ,VERIF_REPO=wt,VERIF_WORKERS=os.environ.get('VERIF_WORKERS','8'))
             rc,out=sh('./vcheck %s quick'%pid,cwd='/verif',env=env)
-            lines=[l for l in out.split('\n') if l.startswith(('VIOLATION','  harness=','INCONCLUSIVE','KNOWN-FINDING'))][:8]
+            al=[l for l in out.split('\n') if l.startswith(('VIOLATION','  harness=','INCONCLUSIVE','KNOWN-FINDING'))]
+            lines=([l for l in al if not l.startswith('INCONCLUSIVE')]+[l for l in al if l.startswith('INCONCLUSIVE')])[:8]
             res={'check':pid,'tier':'quick','exit':rc,'caught':rc==1 and any(l.startswith('VIOLATION') for l in lines),'wall_s':round(time.time()-t0,1),'lines':lines,'verif_commit':commit}
         f=d+'/evaluation.json'
         ev=json.load(open(f)) if os.path.exists(f) else {}
